@@ -103,6 +103,9 @@ def build(case):
     shape = tuple(case["shape"])
     n = int(np.prod(shape))
     data = ((np.arange(n) % 7) - 2.5).reshape(shape) * 0.5 + 0.25       # dyadic, no zeros
+    if case["wseed"] % 5 == 0:
+        data = ((np.arange(n) % 7) - 3).reshape(shape).astype(np.int64)
+        data[data == 0] = 4                                                  # integer data, no zeros
     if case["payload"] == "dask":
         import dask.array as da
         payload = da.from_array(data, chunks=tuple(max(1, s // 2) for s in shape))
